@@ -95,6 +95,9 @@ def scen_close():
     if p._state != pool.CLOSE or p._worker_handler._state != pool.CLOSE or p._taskqueue.items != [None]:
         out.append('close() on a running pool: state=%r supervisor=%r sentinels=%r' % (
             p._state, p._worker_handler._state, p._taskqueue.items))
+    if p._task_handler._state != pool.RUN or p._result_handler._state != pool.RUN:
+        out.append('close() changed the state of the feeder / result thread (feeder=%r result=%r): the feeder stops before '
+                   'the tasks submitted earlier were handed to the workers' % (p._task_handler._state, p._result_handler._state))
     if p._putlock._value != p._putlock._initial_value:
         out.append('close() left the submission semaphore at %d of %d' % (p._putlock._value, p._putlock._initial_value))
     n = Seq.n
@@ -207,8 +210,9 @@ SCEN = {'pool.Pool.join': scen_join, 'pool.Pool.close': scen_close, 'pool.TaskHa
 def main():
     data = json.load(open(sys.argv[1]))
     fn = data['function']
+    base = fn.split('@')[0]
     print('replay of %s / %s' % (fn, data['obligation']))
-    scen = scen_on_ready_map if fn.endswith('on_ready@map') else (scen_on_ready if fn.endswith('on_ready') else SCEN.get(fn))
+    scen = scen_on_ready_map if fn.endswith('on_ready@map') else (scen_on_ready if fn.endswith('on_ready') else SCEN.get(base))
     if scen is None:
         print('no scenario for this function')
         sys.exit(0)
